@@ -6,6 +6,18 @@ ALL = ["C%02d" % i for i in range(1, 21)]
 
 # id -> (technique, level text, level note, design ref)
 CLAIMED = {
+ "C01": ("proptest layout programs; rustc offset_of!/size_of const probes as oracle on stable x86-64 (width 8) and nightly i686-pc-windows-msvc (width 4)",
+         "Generated-input search with the Rust compiler as layout oracle: for every named field of every emitted struct of every generated, accepted program, a const probe asserts offset_of!(T, f) == the offset the description states (explicit address, else end of predecessor); the probe is type-checked by rustc for a target of the configured pointer width. Exploration.",
+         "rustc's layout of repr(C)/packed structs for x86_64-unknown-linux-gnu and i686-pc-windows-msvc is the ground truth; the expected offsets come from the reference model (cross-checked by size_of probes on every field type).",
+         "DESIGN.md §4 C01"),
+ "C02": ("proptest layout programs; rustc size_of/align_of const probes against the sizes pyxis resolved (public registry) and against declared attributes",
+         "Generated-input search with the Rust compiler as oracle: size_of/align_of of every emitted struct, enum and vftable struct equal what pyxis resolved and relied on; declared #[size]/#[align]/#[packed] equal the compiled values; both pointer widths. Exploration.",
+         "Same trusted base as C01.",
+         "DESIGN.md §4 C02"),
+ "C13": ("proptest rich multi-module programs; the assembled crate is type-checked by rustc (host stable with ABI strings normalised; i686-pc-windows-msvc nightly unmodified) and each file parsed by syn",
+         "Generated-input search with the compiler as oracle: every accepted program of the documented fragment must give files that parse and a crate that type-checks on both targets. Known findings are excluded from the generator by construction (counted) and demonstrated by their own replays. Exploration.",
+         "The harness adds only: mod declarations mirroring the tree, extern type definitions (repr(C, align), Copy+Clone), and the crate root; width 4 uses `extern crate core as std`.",
+         "DESIGN.md §4 C13"),
  "C10": ("proptest dependency-graph generator against a reference resolvability model (both directions) + syn inspection of the output + error-message content",
          "Generated-input search: dependency graphs (by-value, array, base, pointer, signature and extern-value edges; forward/backward/self; undefined names; chains up to 48 deep as fixed cases) are built; Ok must coincide with 'all names bind and by-value graph acyclic' per the reference model; on Ok every declared item and every type reference must be present in the output with the expected path; on field-caused Err the message must name every stuck type. Exploration.",
          "Error-message exactness is only checked inside the `failed on types: [..]` list when that phrase is present (otherwise only completeness), so rewording weakens but never falsifies the check. Zero-sized array fields are not expected in the output (pinned from the code).",
